@@ -357,6 +357,23 @@ class SysWorld:
         else:
             self.dw.apply(op)
         quiet = self.net.pump(self.mode, self.frag)
+        if "wirelen" in op:
+            # the exact length of the BLOB message on the wire (the recorded deviation is about messages longer than the threshold):
+            # serialised by the library itself from the driver's / the uploader's current content
+            try:
+                if o == "client-write":
+                    b, f = DV.BLOBS[op["vals"][0][1]]
+                    one = M.OneBLOB(name=op["vals"][0][0], value=base64.b64encode(b).decode(), format=f, size=len(b)) if hasattr(M, "OneBLOB") else None
+                    if one is None:
+                        from indi.message import one_parts as _op
+                        one = _op.OneBLOB(name=op["vals"][0][0], value=base64.b64encode(b).decode(), format=f, size=len(b))
+                    v0 = self.dep["vecs"][op["v"] - 1]
+                    op = dict(op, wirelen=len(M.NewBLOBVector(device=v0["dev"], name=v0["name"], timestamp=M.now(), children=[one]).to_string()))
+                else:
+                    op = dict(op, wirelen=max(len(self.dw.vec(vi).to_set_message().to_string())
+                                              for vi, vv in enumerate(self.dep["vecs"], start=1) if vv["kind"] == "blob"))
+            except Exception:
+                pass
         rec = self.snapshot(op, quiet)
         # (re-)enabling a property republishes it: definition AND current values.  Under global send order a client that
         # enabled BLOBs must then hold the BLOB again (the definition alone carries no payload)
